@@ -94,7 +94,8 @@ def gen_input(rnd, start, maxlen=96):
 
 
 def gen_mode(rnd):
-    return {"endian": rnd.choice("<>"), "align": rnd.random() < 0.5, "ptr": rnd.choice([1, 2, 4, 8])}
+    # pointer widths: the struct-packed ones, and now and then an integer type that is not (uint24 / uint48 / uint128)
+    return {"endian": rnd.choice("<>"), "align": rnd.random() < 0.5, "ptr": rnd.choice([1, 2, 4, 8, 1, 2, 4, 8, 3, 6, 16])}
 
 
 def gen_scenario(rnd, cfg=None, mode=None, top_union=0.12):
@@ -109,10 +110,8 @@ def gen_scenario(rnd, cfg=None, mode=None, top_union=0.12):
 
 
 def start_for(rnd, scn):
-    """Start offsets: arbitrary in packed mode, multiples of 16 (>= every alignment) in aligned mode."""
-    if scn["mode"]["align"]:
-        return rnd.choice([0, 0, 16, 32])
-    return rnd.choice([0, 0, 1, 3, 8, 17])
+    """Start offsets are arbitrary in both modes: alignment inside a structure is relative to its first byte (finding F35)."""
+    return rnd.choice([0, 0, 1, 3, 8, 16, 17])
 
 
 def parse_record(rid, scn, data, start, compiled, *, both=False, kind="parse", extra=None):
@@ -292,9 +291,6 @@ def history_records(rid, scn, rnd, compiled, count=3):
     stream = io.BytesIO(data)
     for i in range(count):
         start = stream.tell()
-        if mode["align"] and start % 16:
-            start += 16 - start % 16
-            stream.seek(start)
         rec = {"id": rid + i, "kind": "parse", "type": t, "mode": mode, "consts": scn["consts"] or {"_": 0}, "input": list(data),
                "start": start, "defs": scn["defs"], "req_compiled": compiled, "tag": f"history-{i}"}
         try:
